@@ -74,7 +74,7 @@ def run_sessions(ctx, rep, sessions, relevant, classify=None, batch=1200, color=
 def replay_session(ctx, data, relevant, runner=None, spec=('TraceSession.tla', 'TraceSession.cfg')):
     if data.get('kind') == 'process-session':
         import e2
-        d = e2.compare(copy.deepcopy(data['trace']), data.get('render') or {})
+        d = e2.compare(copy.deepcopy(data['trace']), data.get('render') or {}, mode=data.get('mode', 'file'))
         print('the real process agrees with the in-process run' if d is None else 'differs (%s): %s' % (sorted(d[0]), d[1]))
         return d is not None
     trace = copy.deepcopy(data['trace'])
